@@ -17,7 +17,7 @@ def _compose(a, b):
     return obs
 
 
-def cross_family(tier, observer=None):
+def cross_family(tier, observer=None, with_no_logger=True):
     from .props import c06, c09, c13, c14, c15, c16, c17
     sc = {}
 
@@ -30,6 +30,8 @@ def cross_family(tier, observer=None):
             s2.observer = _compose(s.observer, observer)
             sc[s2.name] = s2
 
+    from .scenarios_r import logger_variants
+    add("base", logger_variants())
     add("c09", c09.scenarios(tier), keep=lambda n: n[0] in "IJK")
     add("c13", c13.halt_scenarios())
     add("c14", c14.scenarios(tier), keep=lambda n: n.startswith("both:") or n.startswith("mistake+limit") or n.startswith("two_fshocks") or "shock+" in n or ("-t1-" in n and "-on" in n and ("-r0.5" in n or "-hft" in n)))
@@ -37,4 +39,6 @@ def cross_family(tier, observer=None):
     add("c16", c16.scenarios(tier), keep=lambda n: "-L2-" in n or "-L2" in n or "sweep" in n or "two_tier" in n or "step0" in n)
     add("c17", c17.scenarios(tier))
     add("c06", c06.scenarios(tier), keep=lambda n: not n.startswith("sess:2s") or "True, True" in n)
+    if not with_no_logger:
+        sc = {k: v for k, v in sc.items() if v.meta.get("logger") != "none"}
     return sc
